@@ -247,7 +247,8 @@ def run(ctx):
             ctx.ob('C10.D1', Q, 'callback-exists:' + kind_, False,
                    'the %s callback is missing' % kind_)
             continue
-        it2 = Interp(prog, exc_edges=True)
+        it2 = Interp(prog, exc_edges=True,
+                     inline=lambda q, d: q == H + '._send_err')
         for p in it2.run(nf):
             if p.outcome == 'raise':
                 if any(e[0] == 'exc-edge' for e in p.trace):
